@@ -175,6 +175,15 @@ Definition scoped_id_free (n : N) (sc : list scoped) : bool :=
                     | ScColl c _ => negb (c =? n)
                     end) sc.
 
+(* local spans still open above a local collector that is collected / dropped now (the one
+   non-LIFO release the API documents: "spans still open are closed at the collection
+   time"); their handles go stale *)
+Fixpoint split_locals (sc : list scoped) : list scoped * list scoped :=
+  match sc with
+  | ScLocal l h :: rest => let (ls, r) := split_locals rest in (ScLocal l h :: ls, r)
+  | _ => ([], sc)
+  end.
+
 Definition takes (m : pmeth) (r : pres) : bool :=
   match m, r with
   | MFut, RPending => false
@@ -237,6 +246,15 @@ Definition ctx_of_item (it : tok_item) : ctx := (ti_trace it, ti_parent it, ti_s
 
 (* a span handle that names a span in the table *)
 Definition get_span (s : sys) (h : N) : option (option span_inner) := alookup h (s_spans s).
+
+Definition clock_of_step (n : N) : N := n * 1024.
+
+(* One clock anchor per collector cycle (and per to_span_records call): instants converted
+   in different cycles are not comparable to the nanosecond, so the model keeps them apart:
+   conversion number k maps tick x to x + k * 2^44 (a monotone map for fixed k). *)
+Definition anchor_unit : N := 17592186044416.
+Definition anchor_conv (k : N) (x : N) : N := x + k * anchor_unit.
+
 
 (* ------------------------------------------------------------------ one API call *)
 Definition exec_call (s : sys) (th : thread) (e : env) (c : call) : cout :=
@@ -346,14 +364,14 @@ Definition exec_call (s : sys) (th : thread) (e : env) (c : call) : cout :=
       COk s (th_set_scoped (th_set_stack th st') (ScColl lc oep :: th_scoped th)) e [] RUnit
   | KLcCollect lc ls =>
       if amem ls (s_lsets s) then CBad 1 else
-      match th_scoped th with
-      | ScColl lc' oep :: rest =>
+      match split_locals (th_scoped th) with
+      | (open_locals, ScColl lc' oep :: rest) =>
           if negb (lc =? lc') then CBad 4 else
           match lc_collect dbg st oep e with
           | Panic site => CPanic site
           | Ok ((spans, endt, _), st', e') =>
               COk (s_set_lsets s ((ls, (spans, endt)) :: s_lsets s))
-                  (th_set_scoped (th_set_stack th st') rest) e' [] RUnit
+                  (th_set_scoped (th_set_stack th st') (open_locals ++ rest)) e' [] RUnit
           end
       | _ => CBad 4
       end
@@ -382,7 +400,7 @@ Definition exec_call (s : sys) (th : thread) (e : env) (c : call) : cout :=
       end
   | KToRecords ls trace span =>
       match alookup ls (s_lsets s) with
-      | Some (rs, endt) => COk s th e [] (RRecords (to_span_records (fun x => x) rs endt trace span))
+      | Some (rs, endt) => COk s th e [] (RRecords (to_span_records (anchor_conv (s_nstep s)) rs endt trace span))
       | None => CBad 2
       end
   | KSWithProps h ps =>
@@ -542,8 +560,6 @@ Definition advance (todo kept : list N) : cpc * option (list N) :=
 Definition stats_of (am : active_map) : list (N * N * N) :=
   map (fun ka => (fst ka, lenN (a_colls (snd ka)), lenN (a_dang (snd ka)))) am.
 
-Definition clock_of_step (n : N) : N := n * 1024.
-
 Definition step (s0 : sys) (a : action) : sys * obs :=
   let s := s_tick s0 in
   match a with
@@ -660,7 +676,7 @@ Definition step (s0 : sys) (a : action) : sys * obs :=
   | ACProcess =>
       match s_pc s with
       | PDrained =>
-          let (am, recs) := process (fun x => x) (s_cancelable s) (s_active s) (s_batch s) in
+          let (am, recs) := process (anchor_conv (s_nstep s)) (s_cancelable s) (s_active s) (s_batch s) in
           (s_set_collector s (s_registry s) PIdle batch_empty am,
            OReport recs (stats_of am) (lenN (s_registry s)))
       | _ => (s, OBad 24)
